@@ -1350,8 +1350,8 @@ def _inflexible_breadth(token):
 
 def _track_breadth(token):
     """Parse ``track-breadth``."""
-    if token.type == 'dimension' and token.value >= 0 and token.unit == 'fr':
-        return Dimension(token.value, token.unit)
+    if token.type == 'dimension' and token.value >= 0 and token.lower_unit == 'fr':
+        return Dimension(token.value, token.lower_unit)
     return _inflexible_breadth(token)
 
 
